@@ -161,6 +161,83 @@ CLAIMS = {
              "Model-level observations: write_segment's own bound check omits the buffer length and "
              "mark_segment_written compares with > instead of >= (both unreachable under the accepted geometry).",
         design_ref="DESIGN.md section 6 (C08)"),
+    "C05": dict(
+        text="Proved in Lean for every slot count N >= 4 on the header-level machine Fuota.Slots (whose transitions are "
+             "defined through the validated model functions choosePair / fallbackSlot / blStatus / twoNewest): "
+             "alloc_spares_fallback (under ArcInv the pair chosen by alloc_slotpair never contains the newest confirmed "
+             "slot), alloc_never_panics, start_spares_fallback (no crash prefix of start addresses that slot; the "
+             "fallback answer is unchanged after every prefix), arc_preserved + reachable_ringInv (ArcInv and the "
+             "sequence-order invariant are preserved by every transition: start, complete, cancel, recover incl. crash "
+             "prefixes, copy-done, confirm, reject), hence start_spares_fallback_reachable for every reachable state; "
+             "alloc_destroys_fallback_witness (decide) documents the defect of the pinned guards (repaired in /repo). "
+             "On the real code: ring histories on 4..6 slots with the fallback slot compared byte for byte across every "
+             "start, incl. starts that lose power or have invalid parameters.",
+        note="No-wrap assumption SeqRoom (sequence numbers stay 2 allocations below 0xFFFFFFFF). The machine abstracts "
+             "data regions away; that start_update's flash operations stay inside the chosen pair is C08's "
+             "start_ops_in_pair. A native closure of the machine (driver command `closure N`) is model-checking support: "
+             "3805 / 46283 / 222954 reachable states for N = 4 / 5 / 6, all predicates hold.",
+        design_ref="DESIGN.md section 6 (C05)"),
+    "C12": dict(
+        text="Proved in Lean for every N: fallback_ignores / blStatus_ignores / fallback_only_confirmed / "
+             "blStatus_only_pending (parity, in-progress, aborted and rejected slots never influence either query, "
+             "wherever they lie), seq_orders_confirmation (under the sequence invariant, ring offset orders sequence "
+             "numbers), life_refines_partial (given the ghost/header consistency LifeInv and at most one pending image, "
+             "the bootloader query answers copy-incomplete / load-unacknowledged / idle and the fallback query the most "
+             "recently confirmed slot exactly as the lifecycle says). On the real code: after every step of the ring "
+             "histories both queries are compared with a lifecycle oracle kept by the harness.",
+        note="life_refines_partial takes LifeInv as hypothesis: its inductive preservation is not proved; it is checked "
+             "on every reachable state of the machine's closure for N = 4..7 (model-checking support) and by the D6 "
+             "oracle on the implementation. fallback_firmware_slot does not look at the header kind (no reachable state "
+             "has a confirmed parity slot).",
+        design_ref="DESIGN.md section 6 (C12)"),
+    "C13": dict(
+        text="Proved in Lean for every N and every header arrangement: cancel_no_pending, recover_none_no_pending, "
+             "recover_some_only_pair (after recovery only the returned firmware/parity pair reads in progress, and it is "
+             "an in-progress firmware + parity pair), recover_preserves_images / cancel_preserves_images (no crash "
+             "prefix of either addresses a confirmed, rejected or ack-pending slot), recover_idempotent / "
+             "cancel_idempotent (a second call returns the same answer with no effect); remediation_order_chimera_witness "
+             "(decide, N = 6: with the pinned single-pass remediation a power loss inside recovery leads to a session "
+             "assembled from two different updates) and remediation_order_repaired. On the real code: ring histories and "
+             "crash-inside-every-operation scenarios with header post-conditions, protected-slot and no-chimera oracles.",
+        note="'Returns a session iff the latest start succeeded and is live' and 'no chimera' are not proved "
+             "inductively; they are checked on every reachable state of the machine's closure (N = 4..7, crash prefixes "
+             "inside start, complete, remediation, cancel) and by the harness oracle; the chimera path found that way "
+             "was replayed on the real code (corpus/d6.txt) and repaired in /repo.",
+        design_ref="DESIGN.md section 6 (C13)"),
+    "C17": dict(
+        text="Proved in Lean over the L2 model, in which every Rust panic site is the outcome `panic`: "
+             "index_zero_rejected (index 0 returns OutOfBounds with updater and device unchanged: rfl) and "
+             "session_survives; handleSegment_no_panic_and_wf / session_never_panics (for every index < 2^32, every "
+             "device state incl. crash and fault injection, every updater satisfying UpdWF, no delivery panics and "
+             "UpdWF is preserved; UpdWF is established by start_update and by try_recover); robust_calls (for every "
+             "device state whose erase-block size divides the slot size, try_recover, bl_boot_status, fallback_firmware, "
+             "is_valid_firmware, cancel_all and start_update never panic); status_calls_read_only; "
+             "recovered_session_never_panics. On the real code: malformed indices at every session stage and arbitrary "
+             "flash contents, in release and overflow-checked builds, under catch_unwind.",
+        note="Relative to the model's enumeration of panic sites (validated by the catch_unwind correspondence). Row "
+             "generation must return: discharged by C10's termination theorem without force-full-r (rowsDefined_std); "
+             "with force-full-r it is the hypothesis RowsDefined (coded fragment 1240005543 never returns there). "
+             "Payload length must equal the fragment size (documented assert). 'Inside slot boundaries' is C08. Defects "
+             "fixed in /repo: index 0, seed overflow, >2048 parity rows, recovered l > max_l.",
+        design_ref="DESIGN.md section 6 (C17)"),
+    "C01": dict(
+        text="Proved in Lean end to end on the models: simulation_step / session_refines (for crash-free, fault-free "
+             "sessions the flash-backed updater Updater.handleBlock refines the abstract reconstructor Recon.handleBlock "
+             "under the invariant Lawful: geometry, erased-until-written, status bytes = done, stored rows in echelon "
+             "form; abstraction read off the flash), data/parity/matrix_store_lawful (write-then-read on an erased place, "
+             "other indices unchanged), startUpdate_lawful (start_update establishes the invariant on any healthy "
+             "device, any prior flash content), update_exact / update_exact_from_start / update_exact_std (for every "
+             "accepted geometry, image, delivery list of consistent fragments: no delivery fails, and when a fragment "
+             "reports FirmwareComplete the firmware slot's data region equals the image block by block at offset "
+             "0x4400 + m*size and every status byte is 0x33 — from C02's recon_sound through the refinement, rows via "
+             "C10), counters / counters_flash / received_abs (the received counter is monotone, at most n, equal to n "
+             "exactly at completion; the clamp is the identity). Checked on the real code over random geometries, ring "
+             "positions, loss sets, orders, duplicates, in both force-full-r configurations, comparing per-fragment "
+             "outcomes, counters, final check and the flash digests; oracle = the property itself.",
+        note="The validation / Complete-mark conjunct is C14's theorem (check_gate) and is not re-proved here; the header "
+             "fields written by start_update are part of start_crash_free (C08). With force-full-r the theorem needs "
+             "RowsDefined for the delivered indices (C10's termination is proved without force-full-r).",
+        design_ref="DESIGN.md section 6 (C01)"),
 }
 
 _TODO = "check not built yet in this session (planned in DESIGN.md section 6); not believed to be outside the technique"
